@@ -75,7 +75,7 @@ def nest(open_, inner, close, d):
 
 def grammar_inputs(chk, templates):
     """-> list of (fmt, template kind, label, replacement text).  Pure text assembly."""
-    depths = [32, 256] if chk.tier == "quick" else [32, 256, 1000, 5000]
+    depths = [256] if chk.tier == "quick" else [32, 256, 1000, 5000]
     fmts = ["anm", "ecl", "mission"] if chk.tier == "quick" else ["anm", "std", "msg", "ecl", "mission"]
     out = []
     for f in fmts:
@@ -260,7 +260,7 @@ def random_mutant(rng, data):
 
 def mutation_jobs(chk, corpus, baselines, runner):
     quick = chk.tier == "quick"
-    ktok, kbyte = (3, 2) if quick else (40, 15)
+    ktok, kbyte = (2, 2) if quick else (40, 15)
     jobs = []
     sources = list(corpus)
     for fmt, (tool, game, data) in sorted(baselines.items()):
@@ -313,26 +313,35 @@ def run(chk, replay=None):
     if replay:
         tc.replay_job(chk, replay, "c04")
         return
+    import time
+    t0 = time.time()
+    phases = {}
     # in-model: the abstract toolchain satisfies its invariants and only contract outcomes have transitions
     r0 = lib.tlc("MC_Toolchain", workers=2, timeout=600)
     if not r0.ok:
         raise lib.ToolError("MC_Toolchain does not hold: the contract specification itself is inconsistent\n" + r0.out[-2000:])
     chk.set("contract_model_states", r0.distinct)
+    phases["mc_toolchain"] = round(time.time() - t0, 1)
     runner = tc.Runner("c04")
     cases = tlc_cases(chk)
+    phases["tlc_generate"] = round(time.time() - t0, 1)
     jobs, templates, baselines = jobs_from_cases(chk, cases)
     jobs += grammar_jobs(chk, templates)
     corpus = decompile_corpus(chk)
     chk.set("corpus_files", len(corpus))
     mjobs, sources = mutation_jobs(chk, corpus, baselines, runner)
     jobs += mjobs
+    phases["prepare"] = round(time.time() - t0, 1)
     runner.run(jobs)
+    phases["launch"] = round(time.time() - t0, 1)
     chk.add("evaluations", len(jobs))
     tc.outcome_counters(chk, jobs)
     for j in jobs:
         chk.add("inputs_" + j.gen["class"].split(":")[0])
     rejected = tc.judge(chk, jobs, "c04")
+    phases["tlc_judge"] = round(time.time() - t0, 1)
     tc.report_rejections(chk, rejected, runner)
+    chk.set("phase_seconds_cumulative", phases)
 
     # distinct & non-trivial: distinct by content (script + user mapfile bytes + tool + game) and different from every valid
     # corpus file / base line (i.e. something was actually broken or generated)
